@@ -237,6 +237,8 @@ pub const SPECS: &[&str] = &[
     "m:\n  type: anon map\n  initSize: 2\n  minSize: 1\n  maxSize: 4\n  valueType:\n    type: real\n    init: 0.0\n    scale: 1.0\nv:\n  type: variant\n  init: a\n  a:\n    type: const\n  b:\n    type: int\n    init: 0\n    scale: 1.0\ne:\n  type: enum\n  values: [p, q, r]\n  init: q\no:\n  type: optional\n  initPresent: true\n  valueType:\n    type: bool\n    init: true\narr:\n  type: array\n  size: 2\n  valueType:\n    type: real\n    init: 0.25\n    scale: 0.5\n    min: 0.0\n",
     // a root that is not a sub: an optional, for which the guess `null` is valid and means "absent"
     "type: optional\ninitPresent: true\nvalueType:\n  type: real\n  init: 1.0\n  scale: 1.0\n",
+    // resizable maps whose initial size and maximum differ (hash-table capacities of a freshly built and of a parsed value)
+    "m:\n  type: anon map\n  initSize: 3\n  maxSize: 6\n  valueType:\n    type: real\n    init: 0.5\n    scale: 1.0\nn:\n  type: anon map\n  initSize: 7\n  maxSize: 14\n  valueType:\n    type: bool\n    init: false\n",
 ];
 
 pub struct Obs {
